@@ -232,3 +232,101 @@ def operator_reference(prof, parts, Ccard, mult, g, M, N, dxidchi, dpzdrz, pz, p
     T = prof.T(chi)[None, :, None, None]
     coll = mult * T ** 2 * np.einsum("abcdjk,dzjk->azbc", Ccard, gv, optimize=True)
     return liou, coll
+
+
+# ------------------------------------------------ reference system for sampled backgrounds
+def lobatto_diff(n):
+    """(x, D): Gauss-Lobatto nodes x_j = -cos(j pi/n), j = 0..n, and the differentiation
+    matrix of the Lagrange interpolant through them (barycentric form; node differences
+    from the product-to-sum identity, diagonal from the negative row sum)."""
+    j = np.arange(n + 1)
+    x = -np.cos(j * np.pi / n)
+    w = (-1.0) ** j
+    w[0] *= 0.5
+    w[-1] *= 0.5
+    s = j[:, None] + j[None, :]
+    d = j[:, None] - j[None, :]
+    dx = 2.0 * np.sin(s * np.pi / (2 * n)) * np.sin(d * np.pi / (2 * n))   # x_i - x_j
+    np.fill_diagonal(dx, 1.0)
+    D = (w[None, :] / w[:, None]) / dx
+    np.fill_diagonal(D, 0.0)
+    np.fill_diagonal(D, -D.sum(axis=1))
+    return x, D
+
+
+def plain_grid_closed_form(M, N, L, Tmom):
+    """Coordinates and Jacobians of WallGo.Grid from its documented compactification
+    chi = xi/sqrt(xi^2+L^2), rho_z = tanh(p_z/2T), rho_par = 1 - 2 exp(-p_par/T)."""
+    chi, rz, rp = nodes(M, N)
+    return {"xi": L * chi / np.sqrt(1.0 - chi ** 2), "pz": 2.0 * Tmom * np.arctanh(rz),
+            "pp": -Tmom * np.log((1.0 - rp) / 2.0),
+            "dxidchi": L / (1.0 - chi ** 2) ** 1.5, "dpzdrz": 2.0 * Tmom / (1.0 - rz ** 2)}
+
+
+def reference_system(T, vWallFrame, vMid, msq, stats, Ccard, mult, M, N, gq):
+    """Linear system  (L + mult T^2 C) f = S  on collocation values f[a, alpha, beta, gamma]
+    (Cardinal/Cardinal) for a background given by its samples on the full chi grid
+    (T, vWallFrame: (M+1,); msq: (P, M+1)) and the grid quantities
+    gq = {dxidchi (M-1,), dpzdrz (N-1,), pz (N-1,), pp (N-1,)}.
+
+      L f = dchi/dxi [ P_wall d/dchi - gamma_w/2 dm^2/dchi drz/dpz d/drz ] f
+      S   = -(P_wall d/dxi - gamma_w/2 dm^2/dxi d/dp_z) f_eq,
+      f_eq = 1/(exp(gamma (E - v p_z)/T) -+ 1)
+
+    The xi-derivative of f_eq is taken by complex-step differentiation along the direction
+    (dT/dchi, dv/dchi, dm^2/dchi) in the space of background quantities, these three being
+    the spectral derivatives (own Lobatto differentiation matrix) of the samples; the
+    p_z-derivative by complex step in p_z.  deltaF vanishes on the dropped boundary nodes,
+    hence the interior blocks of the differentiation matrices.
+    Returns (operator (n, n), source (n,))."""
+    P = len(stats)
+    _, Dc = lobatto_diff(M)
+    _, Dz = lobatto_diff(N)
+    T = np.asarray(T, dtype=float)
+    vpl = boost(np.asarray(vWallFrame, dtype=float), vMid)
+    msq = np.asarray(msq, dtype=float)
+    vw = boost(0.0, vMid)
+    gw = 1.0 / np.sqrt(1.0 - vw * vw)
+    dT = (Dc @ T)[1:-1]
+    dv = (Dc @ vpl)[1:-1]
+    dm2 = (msq @ Dc.T)[:, 1:-1]
+    Ti, vi, m2i = T[1:-1], vpl[1:-1], msq[:, 1:-1]
+    pz = np.asarray(gq["pz"], dtype=float)
+    pp = np.asarray(gq["pp"], dtype=float)
+    dchidxi = 1.0 / np.asarray(gq["dxidchi"], dtype=float)
+    drzdpz = 1.0 / np.asarray(gq["dpzdrz"], dtype=float)
+    st = np.asarray(stats, dtype=float)[:, None, None, None]
+
+    h = 1e-30
+    Z = (None, slice(None), None, None)
+    PZ = pz[None, None, :, None]
+    PP = pp[None, None, None, :]
+
+    def f(Tc, vc, m2c, pzc):
+        E = np.sqrt(m2c + pzc ** 2 + PP ** 2)
+        g = 1.0 / np.sqrt(1.0 - vc * vc)
+        return feq(g * (E - vc * pzc) / Tc, st)
+
+    m2b = m2i[:, :, None, None]
+    dfdchi = np.imag(f(Ti[Z] + 1j * h * dT[Z], vi[Z] + 1j * h * dv[Z],
+                       m2b + 1j * h * dm2[:, :, None, None], PZ + 0j)) / h
+    dfdpz = np.imag(f(Ti[Z] + 0j, vi[Z] + 0j, m2b + 0j, PZ + 1j * h)) / h
+    E = np.sqrt(m2b + PZ ** 2 + PP ** 2)
+    Pwall = gw * (PZ - vw * E)
+    source = -(Pwall * dchidxi[Z] * dfdchi
+               - 0.5 * gw * dm2[:, :, None, None] * dchidxi[Z] * dfdpz)
+
+    m1, n1 = M - 1, N - 1
+    op = np.zeros((P, m1, n1, n1, P, m1, n1, n1))
+    Dci, Dzi = Dc[1:-1, 1:-1], Dz[1:-1, 1:-1]
+    Im, In = np.eye(m1), np.eye(n1)
+    for a in range(P):
+        op[a, :, :, :, a] += np.einsum("zbg,zi,bj,gk->zbgijk",
+                                       dchidxi[:, None, None] * Pwall[a], Dci, In, In,
+                                       optimize=True)
+        op[a, :, :, :, a] -= np.einsum("z,b,zi,bj,gk->zbgijk", dchidxi * (gw / 2) * dm2[a],
+                                       drzdpz, Im, Dzi, In, optimize=True)
+    op += mult * np.einsum("z,zi,abgcjk->azbgcijk", Ti ** 2, Im, np.asarray(Ccard),
+                           optimize=True)
+    n = P * m1 * n1 * n1
+    return op.reshape(n, n), source.reshape(n)
